@@ -23,7 +23,8 @@ Inductive action :=
 | ACancel (c : nat)
 | ASetQid (n : N)
 | AExpire                               (* the armed read deadline expires: Read fails with a timeout *)
-| ARunt (n : N).                        (* datagram framing only: a datagram of n < 12 bytes arrives; the reader skips it *)                      (* test hook VerifSetNextQid: forces the wire-id counter *)
+| ARunt (n : N)
+| ASleep.                               (* datagram framing only: more than a second of real time passes (the caller re-sends) *)                        (* datagram framing only: a datagram of n < 12 bytes arrives; the reader skips it *)                      (* test hook VerifSetNextQid: forces the wire-id counter *)
 
 (** What the harness saw. [o_code]: AReserve: 0 admitted, 1 refused (full),
     2 refused (closed); AStart: wire id + 1 of the query written, 0 if the call
@@ -108,6 +109,7 @@ Definition exec_action (s : st) (held : list nat) (a : action) (o : obs) : optio
     let k := match arms s with ArmWaiting :: _ => 2 | _ => 1 end in
     match step s LRecvErr with Some s1 => Some (s1, held, o_code o =? k) | None => None end
   | ARunt _ => if is_tcp s then None else Some (s, held, true)
+  | ASleep => if is_tcp s then None else Some (s, held, true)
   | ASetQid n =>
     Some (mkSt (closed s) (close_err s) (queue s) (wrap16 n) (reserved s) (qlen s) (max_cq s) (is_tcp s)
                (calls s) (live s) (hold s) (htarget s) (reader_dead s) (waiting_resp s) (arms s), held, true)
@@ -398,9 +400,12 @@ Fixpoint c07_walk (strict : bool) (tk : trk7) (sc : list (action * obs)) : bool 
 
 Definition spec_c07_gen (strict : bool) (cs : case) : bool :=
   match cs with
-  | CTdc _ _ _ script _ _ _ fb _ =>
+  | CTdc _ _ _ script _ _ _ fb arms =>
     let '(ok, tk) := c07_walk strict (mkTrk7 [] [] [] false []) script in
-    ok && forallb (fun c =>
+    (* the waiting-reply deadline is armed by sending a query, never pushed back otherwise (a re-send to a
+       silent server must not postpone the moment the connection is declared dead) *)
+    (length (filter (fun a : N => (a =? 2)%N) arms) <=? length (filter (fun ao => match fst ao with AWriteEnd _ true _ => true | _ => false end) script))%nat
+    && ok && forallb (fun c =>
             mem_nat c (held_at_end [] script) || mem_nat c (in_write_at_end [] script)
             || negb (k_closed tk || mem_nat c (k_cancelled tk))) fb
   end.
